@@ -56,3 +56,4 @@ else:
     s = s.rstrip('\n') + '\n\n---------------------------------------------------------------------------------------------------\n\n' + txt
 open(p, 'w').write(s)
 print(len(rows), 'rows')
+os.system(os.path.join(HERE, 'tools', 'mkdesign16.py'))     # section 16 follows section 15 and is regenerated with it
